@@ -80,6 +80,17 @@ def run(chk):
             kw = {'tag': True} if rnd.random() < 0.5 else {}
             kw['dialect'] = rnd.choice(rx.DIALECTS)
             sizekw = None
+        elif tid % 41 == 7:
+            # two shapes that share a constant at the same place from the left; the shorter shape ends there
+            sep = rnd.choice([':', '-', '/', '='])
+            def pre():
+                return '%02d' % rnd.randint(10, 99) if rnd.random() < 0.6 else rnd.choice('abcdefgh') * 2
+            short = {pre() + sep for _ in range(3)}
+            longer = {pre() + sep + rnd.choice(['ab', 'cd', 'xy', 'zz']) + rnd.choice(['', '', '-']) for _ in range(3)}
+            ex = sorted(short) + sorted(longer)
+            rnd.shuffle(ex)
+            kw = {'tag': True} if rnd.random() < 0.3 else {}
+            sizekw = None
         elif tid % 7 == 3:
             # shapes that occur equally often, with fewer patterns allowed than shapes: which ones survive the pruning
             # must not depend on whether capture groups were asked for
